@@ -317,26 +317,23 @@ fn judge(scn: &Scenario, res: &ExecResult<Observed>) -> Result<Judged, String> {
         return Err(format!("run() returned while threads {:?} were still alive (workers not joined)", res.unfinished_at_return));
     }
     // reconstruct the arrival order from the scheduler's log
-    // result channels = channels on which threads other than the body send, in creation order
-    // (the reporter and the termination channels only ever carry sends of the body thread); no
-    // assumption is made about their kind (bounded or not)
-    let worker_sent: HashSet<usize> = res.log.iter().filter_map(|e| if let Event::Send { chan, tid, .. } = e { if *tid != 0 { Some(*chan) } else { None } } else { None }).collect();
-    let result_chans: Vec<usize> = res.log.iter().filter_map(|e| if let Event::ChanCreate { chan, .. } = e { if worker_sent.contains(chan) { Some(*chan) } else { None } } else { None }).collect();
+    // arrival order = order of the successful sends performed by worker threads (the only thing
+    // a worker ever sends is a frame result); the Eb/N0 point of a result is that of the worker
+    // that sent it (workers are spawned point by point). No assumption is made about which
+    // channel, or which kind of channel, carries the results.
     let spawned: Vec<usize> = res.log.iter().filter_map(|e| if let Event::Spawn { child, .. } = e { Some(*child) } else { None }).collect();
     let mut sent: std::collections::HashMap<usize, usize> = std::collections::HashMap::new();
     let mut arrival: Vec<(usize, usize, usize)> = Vec::new();
     for e in &res.log {
-        if let Event::Send { chan, tid, ok: true } = e {
-            if let Some(round) = result_chans.iter().position(|c| c == chan) {
-                let pos = spawned.iter().position(|t| t == tid).ok_or("send by an unknown thread")?;
-                let (r2, w) = (pos / scn.workers, pos % scn.workers);
-                if r2 != round {
-                    return Err(format!("worker of round {} sent on the result channel of round {}", r2, round));
-                }
-                let f = sent.entry(*tid).or_insert(0);
-                arrival.push((round, w, *f));
-                *f += 1;
+        if let Event::Send { tid, ok: true, .. } = e {
+            if *tid == 0 {
+                continue;
             }
+            let pos = spawned.iter().position(|t| t == tid).ok_or("send by an unknown thread")?;
+            let (round, w) = (pos / scn.workers, pos % scn.workers);
+            let f = sent.entry(*tid).or_insert(0);
+            arrival.push((round, w, *f));
+            *f += 1;
         }
     }
     // (v) report stream: Finished exactly once and last
@@ -595,6 +592,14 @@ fn scenarios(thorough: bool) -> Vec<(Scenario, Vec<usize>)> {
         }
     }
     add(3, 1, 0, true, 2, 0, Inject::None, if thorough { vec![2] } else { vec![1] }, 0);
+    // zero required frame errors: the point ends without consuming a frame (ratios are 0/0)
+    for w in 1..=3 {
+        add(w, 0, 0, true, 1, 0, Inject::None, vec![if w == 3 { 2 } else { 3 }], 1);
+        add(w, 0, 1, false, 2, 1, Inject::None, vec![if w == 3 && !thorough { 1 } else { 2 }], 1);
+    }
+    // four workers
+    add(4, 1, 0, true, 1, 0, Inject::None, vec![if thorough { 2 } else { 1 }], 0);
+    add(4, 2, 1, false, 1, 1, Inject::None, vec![1], 0);
     // the same scenarios with endpoint drops as scheduling points of their own: outcomes must be
     // judged correct there too (validates the default granularity, see DESIGN.md 10.3)
     let dp: Vec<(Scenario, Vec<usize>)> = v
@@ -740,6 +745,8 @@ pub fn run(run: &Run) -> i32 {
         for (scn, bounds) in &list {
             let b = *bounds.last().unwrap();
             let nshards = match (scn.workers, b, scn.rounds) {
+                (4, b, _) if b >= 2 => 64,
+                (4, _, _) => 16,
                 (3, b, _) if b >= 3 => 64,
                 (3, 2, _) => 16,
                 (3, 1, 2) => 8,
@@ -807,12 +814,12 @@ pub fn run(run: &Run) -> i32 {
         run,
         acc,
         Coverage {
-            rule: "stateless DFS over thread schedules of the real BerTest::run under a controlled scheduler (every channel send/recv/try_recv, spawn, join and thread exit is a scheduling point; one thread runs at a time), all schedules with at most b preemptions per scenario (b per scenario in per_scenario; includes every schedule with fewer preemptions); scenarios = worker counts 1..3 x required frame errors 1..2 x outer-code threshold off/1 x report interval 0/1h x 4 frame scripts x 1 or 2 Eb/N0 points, plus failure injection (stage returns Err; interleaver / 8PSK stage panics in every worker; decoder panics in worker 0). Scripted decoders yield at low priority after their frame budget (the number of frames after which any single worker has supplied the required errors), which bounds how far a worker runs ahead. Oracle per execution: termination (deadlock = no enabled thread), all threads joined at return, statistics == fold of the scripted frames in the arrival order read from the scheduler's own log up to exactly the stopping prefix (bit-exact ratios), every intermediate report == fold of its prefix, single final 'finished' report, Err (not hang / panic) for unprocessable configurations. states/transitions = decision points executed; traces_validated_against_impl = complete executions of the implementation. Non-trivial = execution with at least one real scheduling choice. Exploration is sharded over worker processes by subtrees of a deterministic breadth-first frontier.".into(),
+            rule: "stateless DFS over thread schedules of the real BerTest::run under a controlled scheduler (every channel send/recv/try_recv, spawn, join and thread exit is a scheduling point; one thread runs at a time), all schedules with at most b preemptions per scenario (b per scenario in per_scenario; includes every schedule with fewer preemptions); scenarios = worker counts 1..3 (4 at preemption bound 1-2) x required frame errors 0..2 x outer-code threshold off/1 x report interval 0/1h x 4 frame scripts x 1 or 2 Eb/N0 points, plus failure injection (stage returns Err; interleaver / 8PSK stage panics in every worker; decoder panics in worker 0). Scripted decoders yield at low priority after their frame budget (the number of frames after which any single worker has supplied the required errors), which bounds how far a worker runs ahead. Oracle per execution: termination (deadlock = no enabled thread), all threads joined at return, statistics == fold of the scripted frames in the arrival order read from the scheduler's own log up to exactly the stopping prefix (bit-exact ratios), every intermediate report == fold of its prefix, single final 'finished' report, Err (not hang / panic) for unprocessable configurations. states/transitions = decision points executed; traces_validated_against_impl = complete executions of the implementation. Non-trivial = execution with at least one real scheduling choice. Exploration is sharded over worker processes by subtrees of a deterministic breadth-first frontier.".into(),
             exhaustive: all_complete,
             extra,
             graph: Some(graph),
             assumptions: vec![
-                "worker counts above 3 and preemption depths above the reported bound are not explored".into(),
+                "worker counts above 4 and preemption depths above the reported bound are not explored".into(),
                 "scheduling granularity: a thread runs atomically between two channel/spawn/join operations; endpoint drops are not separate scheduling points (they only enable other threads' pending operations and happen in the block that ends at the thread's next operation or exit)".into(),
                 "ber.rs contains no unsafe code and no atomics, so data races are excluded by the type system".into(),
             ],
